@@ -544,6 +544,21 @@ fn run_text_case(f: &[&str], vals: &BTreeMap<String, Cell>) -> String {
                 drop(std::mem::replace(&mut xs, ys));
             }
             "abort" => xs.abort_run(),
+            "cpush" => {
+                // what a C host does: `xeh_push` on the interpreter it holds by pointer (with the stack at its limit the
+                // push is refused — repair a0b17ea: the entry point used to unwrap the refusal and abort the process)
+                let n: usize = arg.parse().unwrap_or(1);
+                let p = Box::into_raw(Box::new(std::mem::replace(&mut xs, fresh(0, false))));
+                unsafe {
+                    for i in 0..n {
+                        let _ = xeh::c_api::xeh_push(p, Box::into_raw(Box::new(Cell::Int(i as i128))));
+                    }
+                    let _ = xeh::c_api::xeh_top_len(p);
+                    let v = xeh::c_api::xeh_pop(p);
+                    xeh::c_api::xeh_release(v);
+                    xs = *Box::from_raw(p);
+                }
+            }
             "pop" => {
                 let r = xs.pop_data();
                 if let Ok(c) = &r {
@@ -801,6 +816,10 @@ fn alloc_excluded(word: &str, args: &[&Val]) -> bool {
         "d2-resize" => {
             let h = top(0).unwrap_or(1);
             let w = top(1).unwrap_or(1);
+            // a canvas whose cell count does not even fit the address space is not an allocation request the word could
+            // try to honour: it has to be refused with an error (repair 666ffa0: `w * h` overflowed)
+            let um = usize::MAX as i128;
+            if h > 0 && w > 0 && h <= um && w <= um && h.checked_mul(w).map(|p| p > um).unwrap_or(true) { return false; }
             h > ALLOC_MAX || w > ALLOC_MAX || (h > 0 && w > 0 && h.saturating_mul(w) > 4 * ALLOC_MAX)
         }
         _ => false,
@@ -1479,6 +1498,14 @@ fn text_case(r: &mut Rng, text: &str, long_limits: bool) -> (String, String) {
                 if r.chance(50) {
                     steps.push("perr".into());
                 }
+                if r.chance(25) {
+                    // a probe typed while the program is paused (inside its calls, loops, builders): one that fails at
+                    // run time stays open on top of the paused program, one that is rejected is forgotten
+                    let probe = *r.pick(&["1 0 /", "nosuch", "2 0 do I loop 1 0 /", "[ 1 0 / ]", "drop drop drop drop drop drop", ": pw 1 0 / ; pw", "I J K", "1 if", "nil 1 +", "{ 1 nil 1 + }",
+                        "3 0 do I 1 = if nil 1 + then loop", "[ 1 2 ] foreach I 0 / loop", "\"x\" error", "1 2 3", "depth 0 do drop loop"]);
+                    steps.push(format!("{}={}", if r.chance(80) { "eval" } else { "compile" }, esc(probe)));
+                    if r.chance(30) { steps.push("perr".into()); }
+                }
                 if r.chance(60) {
                     steps.push(format!("rnext={}", 1 + r.below(40)));
                 }
@@ -1510,6 +1537,12 @@ fn text_case(r: &mut Rng, text: &str, long_limits: bool) -> (String, String) {
         }
     }
     steps.push("perr".into());
+    if r.chance(6) {
+        // a C host pushes values, also past a small stack limit
+        if r.chance(70) { steps.push(format!("stack={}", r.pick(&["0", "1", "2", "5"]))); }
+        steps.push(format!("cpush={}", 1 + r.below(8)));
+        steps.push("perr".into());
+    }
     if r.chance(50) {
         steps.push("fmt".into());
     }
@@ -1589,6 +1622,41 @@ fn plan_fixed_texts(plan: &mut Plan, ctx: &mut Ctx) {
     }
 }
 
+/// A structured program paused in the middle (inside nested loops, calls, builders, a `case`), then sources typed at
+/// the prompt while it is paused — failing at run time (they stay open on top of the paused program), rejected, or
+/// fine — interleaved with stepping back over the point of the pause and forward again.
+fn paused_probe_case(r: &mut Rng) -> (String, String) {
+    const PROGS: &[&str] = &[
+        "2 0 do I 2 0 do I loop loop", ": f 3 0 do I drop loop 5 ; f f 7", "[ 1 2 [ 3 4 ] 5 ] drop { 1 2 3 4 } drop 9", "3 0 do [ I I ] drop loop 1",
+        ": g local a a 2 0 do a I + drop loop a ; 5 g 6 g", "[ 7 8 9 ] foreach I 2 0 do J drop loop loop 4", "2 case 1 of 10 endof 2 of 3 0 do I drop loop 20 endof drop 0 endcase",
+        "begin depth 3 < while 2 0 do I loop repeat", ": h 1 2 + ; : k h h * ; 2 0 do k drop loop k", "0 var v 4 0 do v I + ! v loop v", "[ 1 2 ] foreach [ I ] foreach I drop loop loop 3",
+        "|01 02 03 04| open-bitstr 2 0 do u8 drop loop u16 close-bitstr",
+    ];
+    const PROBES: &[&str] = &["1 0 /", "nosuch", "2 0 do I loop 1 0 /", "[ 1 0 / ]", "drop drop drop drop drop drop", ": pw 1 0 / ; pw", "I J K", "1 if", "nil 1 +", "{ 1 nil 1 + }",
+        "3 0 do I 1 = if nil 1 + then loop", "[ 1 2 ] foreach I 0 / loop", "\"x\" error", "1 2 3", "depth 0 do drop loop", "2 0 do 2 0 do 1 0 / loop loop", ": q 2 0 do I 0 / loop ; q", "u8 u8 u8 u8 u8 u8"];
+    let mut steps: Vec<String> = Vec::new();
+    if r.chance(80) { steps.push("rec+".into()); }
+    if r.chance(20) { steps.push(format!("bin={}", gen_bin_arg(r))); }
+    steps.push(format!("compile={}", esc(*r.pick(PROGS))));
+    for _ in 0..1 + r.below(3) {
+        steps.push(format!("next={}", 1 + r.below(25)));
+        for _ in 0..1 + r.below(2) {
+            steps.push(format!("{}={}", if r.chance(85) { "eval" } else { "compile" }, esc(*r.pick(PROBES))));
+        }
+        if r.chance(30) { steps.push("perr".into()); }
+        steps.push(format!("rnext={}", 1 + r.below(30)));
+        steps.push(format!("next={}", 1 + r.below(30)));
+        if r.chance(15) { steps.push("abort".into()); }
+        if r.chance(15) { steps.push("clone".into()); }
+    }
+    steps.push("run".into());
+    steps.push("perr".into());
+    steps.push("fmt".into());
+    let line = format!("T\t0\t{}", steps.join("\t"));
+    let shown = format!("text: state=fresh steps: {}", steps.iter().map(|s| unesc_shown(s)).collect::<Vec<_>>().join(" ; "));
+    (line, shown)
+}
+
 fn plan_texts(ctx: &mut Ctx, words: &[String], n: usize, plan: &mut Plan) {
     // the soups never name the shadowed words' originals — they are shadowed in the child anyway
     let soup_words: Vec<String> = words.iter().filter(|w| !DESTRUCTIVE.contains(&w.as_str())).cloned().collect();
@@ -1596,6 +1664,12 @@ fn plan_texts(ctx: &mut Ctx, words: &[String], n: usize, plan: &mut Plan) {
         let mut r = ctx.rng.fork();
         let kind = r.below(100);
         let mut long_limits = false;
+        if kind >= 17 && kind <= 19 {
+            let (line, shown) = paused_probe_case(&mut r);
+            ctx.tag("text:paused-program-and-probes");
+            plan.push(line, shown);
+            continue;
+        }
         let (text, tag): (String, &str) = match kind {
             0..=19 => (gen_soup(&mut r, &soup_words), "soup"),
             20..=24 => {
